@@ -23,6 +23,9 @@ type LocalAssignStmt struct {
 
 	Names []string
 	Exprs []Expr
+	// LocalFunction is true for `local function f ... end`: only there is
+	// the name in scope inside the function body.
+	LocalFunction bool
 }
 
 type FuncCallStmt struct {
